@@ -330,6 +330,9 @@ var naturalCauses = []string{
 	"blacklisted-fee-recipient", "blacklisted-internal-recipient", "blacklisted-orbiter", "ftf-paused", "above-burn-limit",
 	"cctp-unknown-domain", "cctp-burning-paused", "hyp-unknown-domain", "hyp-unknown-token", "hyp-token-of-other-denom",
 	"blocked-internal-recipient", "escrow-short", "receive-disabled", "none",
+	// a step the chain has no controller for: an action (ACTION_SWAP in the application's wiring)
+	// or an outgoing protocol (IBC) that is valid as an identifier, also while it is paused
+	"action-without-controller", "protocol-without-controller", "paused-protocol-without-controller",
 	// not a failure of the transfer: the one documented exception. The statistics of the route
 	// cannot be recorded (counter saturated by a valid genesis); the transfer itself must still
 	// be complete.
@@ -376,6 +379,21 @@ func applyCause(w *world.World, ctx sdk.Context, c *caseC03Natural) error {
 		t.Route = kit.Route{Kind: "hyp", Domain: 1, TokenID: w.HypToken[world.Ufoo], Recipient: kit.Fill32(2)}
 	case "blocked-internal-recipient":
 		t.Route = kit.Route{Kind: "internal", To: world.DustAddr.String()}
+	case "action-without-controller":
+		if len(t.Actions) > 0 && t.Channel%2 == 0 {
+			t.Actions = append(t.Actions, kit.Action{Kind: "swap"})
+		} else {
+			t.Actions = append([]kit.Action{{Kind: "swap"}}, t.Actions...)
+		}
+	case "protocol-without-controller", "paused-protocol-without-controller":
+		id := int32(core.PROTOCOL_IBC)
+		t.Route.ProtoID = &id
+		if c.Cause == "paused-protocol-without-controller" {
+			msg, _ := kit.BuildAdmin(kit.Admin{Kind: "pause_protocol", Protocol: "PROTOCOL_IBC"})
+			if r := w.Tx(ctx, msg); !r.OK() {
+				return fmt.Errorf("harness: %v", r.Err)
+			}
+		}
 	case "escrow-short":
 		t.Amount = new(big.Int).Add(big.NewInt(world.EscrowSmall), big.NewInt(1)).String()
 		t.Route = kit.Route{Kind: "internal", To: world.Addr("bob").String()}
@@ -425,7 +443,8 @@ func runC03Natural(w *world.World, c caseC03Natural, rec *kit.Recorder) error {
 		strict := false
 		switch c.Cause {
 		case "blocked-internal-recipient", "above-burn-limit", "cctp-unknown-domain", "cctp-burning-paused",
-			"hyp-unknown-domain", "hyp-unknown-token", "escrow-short", "receive-disabled":
+			"hyp-unknown-domain", "hyp-unknown-token", "escrow-short", "receive-disabled",
+			"action-without-controller", "protocol-without-controller", "paused-protocol-without-controller":
 			strict = true
 		case "hyp-token-of-other-denom":
 			strict = c.Transfer.Denom != world.Ufoo // the token named is ufoo's own
